@@ -9,7 +9,7 @@ from ..cfg import cfg_of
 from ..dag import T, walk, contains, deep_inline, show
 from ..model import FunctionInfo, ClassInfo, AnalysisError
 from ..report import Ctx
-from ..util import norm, ancestors, fn_body_nodes, is_none_test, parents, walk_local, kwarg
+from ..util import name_free, norm, ancestors, fn_body_nodes, is_none_test, parents, walk_local, kwarg
 from . import setorder
 
 EXPLANATION = (
@@ -491,7 +491,7 @@ class RNG:
                         continue
                     bad = [x for x in walk(t) if x.op == "call" and x.args[0].op == "builtin" and x.args[0].args[0] in ("hash", "id")]
                     bad += [x for x in walk(t) if x.op == "attr" and x.args[1] == "__hash__"]
-                    inst = f"{cs.external}({norm(arg)})"
+                    inst = f"{cs.external}({name_free(fi, arg)})"
                     if bad:
                         where = bad[0].loc()
                         ctx.violation("RNG-5", fi, cs.node, inst,
